@@ -1,5 +1,6 @@
 """C18 — format and options validation (DESIGN §4)."""
 from rules import fmt as F
+from rules import extra as X
 from rules.core import guarded
 
 INFO = {
@@ -17,3 +18,5 @@ def run(col, configs, tier):
         guarded(col, F.rule_format_error, facts)
         guarded(col, F.rule_build_strict, facts)
         guarded(col, F.rule_entry_validation, facts)
+        guarded(col, X.rule_byte_predicates, facts)
+        guarded(col, X.rule_control_radices, facts)
